@@ -1,6 +1,11 @@
 """Shared CLI driver for C03 / C07: build a synthetic scenario (harness.synth), run `whatshap phase` from the scratch
 build with the WHATSHAP_VERIF_TRACE hook, and parse what the run produced (trace records, output VCF calls,
 read list).  Every random choice is derived from the integer `seed` stored in the case spec, so a spec replays exactly.
+
+Note on --merge-reads: it is part of the drawn option space again (ReadMerger.merge was repaired in /repo commit 3ab1948;
+before that it dropped name/mapq/source_id/sample_id of merged reads, so multi-sample runs crashed).  The oracles of both
+properties are stated on the reads handed to the solver (the trace), i.e. on the merged reads, so no model support is
+needed; only the stacked few-reads stream of C07 keeps it off, because its maximality expectation counts input reads.
 """
 import json
 import os
@@ -66,7 +71,7 @@ def draw_variation(rng, spec, fixed=None):
         "rg_per_sample": [rng.choice([1, 1, 2, 3]) for _ in roles],
         "rg_style": rng.choice(["sample", "opaque", "opaque", "collide"]),
         "nbam": rng.choice([1, 1, 2]),
-        "merge_reads": rng.random() < 0.12,
+        "merge_reads": rng.random() < 0.15,
         "only_snvs": rng.random() < 0.1,
         "no_reference": rng.random() < 0.12,
         "sample_subset": (not ped and len(roles) > 1 and rng.random() < 0.35),
@@ -84,11 +89,6 @@ def classify_crash(spec, res, default_sig):
     """(signature, description) of a failed `whatshap phase` run; specific classes first."""
     se = res["stderr"]
     var = spec.get("var") or {}
-    if var.get("merge_reads") and ("not present in pedigree" in se or "duplicate read name" in se):
-        return ("phase:merge-reads-drops-sample-id",
-                "--merge-reads builds the merged reads without sample_id/source_id (merge.py: Read(f'read{n}')), so the solver "
-                "refuses every sample whose numeric id is not 0 (RuntimeError 'Individual with ID 0 not present in pedigree') and "
-                "pedigree runs collide on the renumbered names ('ReadSet::add: duplicate read name')")
     if "GrayCodes" in se or res["rc"] < 0 or res["rc"] == 124:
         return ("phase:solver-abort-over-cap", "the solver aborted / was killed / timed out (GrayCodes assertion, signal or "
                 "timeout: more reads span a column than the exponential table supports)")
@@ -161,7 +161,7 @@ def make_stacked_spec(rng, k, counts, family="trio", many=0, nstack=None):
     spec = make_spec(rng, trio=(family != "single"), k=k, nvars=rng.randint(5, 8), depth_reads=many, paired_fraction=0.0,
                      het_fraction=1.0, tag="PS", genetic=rng.random() < 0.5, phased_input=False, nchrom=1,
                      low_cov_gaps=False, min_gap=25, len_range=[60, 200], family=family,
-                     var={"merge_reads": False})       # merging would change the number of reads per member
+                     var={"merge_reads": False})       # merging changes the number of reads per member (expectation counts them)
     spec["kinds"] = ["snv"]
     spec["stacked"] = {"counts": list(counts), "nstack": nstack or rng.choice([2, 3])}
     return spec
